@@ -53,16 +53,14 @@ struct verif_context final : pika::execution::detail::context_base
     pika::execution::detail::resource_base res_;
 };
 
+static verif_context verif_the_context;
+
 struct verif_agent final : pika::execution::detail::agent_base
 {
-    std::uint32_t token = 0;      // wake-up token deposited by resume()
-    std::uint32_t resumes = 0;    // ghost: number of resume() calls
-    std::uint32_t aborted = 0;
-    int slot = 0;
-    verif_context ctx;
+    std::uint32_t token = 0;    // wake-up token deposited by resume()
 
     std::string description() const override { return std::string(); }
-    pika::execution::detail::context_base const& context() const override { return ctx; }
+    pika::execution::detail::context_base const& context() const override { return verif_the_context; }
     void yield(char const*) override { verif_spin(); }
     void yield_k(std::size_t, char const*) override { verif_spin(); }
     void spin_k(std::size_t, char const*) override { verif_spin(); }
@@ -71,16 +69,8 @@ struct verif_agent final : pika::execution::detail::agent_base
         verif_block_until(&token);
         token = 0;
     }
-    void resume(char const*) override
-    {
-        ++resumes;
-        token = 1;
-    }
-    void abort(char const*) override
-    {
-        ++aborted;
-        token = 1;
-    }
+    void resume(char const*) override { token = 1; }
+    void abort(char const*) override { token = 1; }
     void sleep_for(pika::chrono::steady_duration const&, char const*) override { sleep_common(); }
     void sleep_until(pika::chrono::steady_time_point const&, char const*) override { sleep_common(); }
     // timed suspension: returns when resumed or, nondeterministically, because the deadline passed
@@ -94,6 +84,7 @@ struct verif_agent final : pika::execution::detail::agent_base
                 token = 0;
                 return;
             }
+            int slot = verif_tid();
             if (verif_deadline_passed[slot] || verif_nondet_range(0, 1))
             {
                 verif_deadline_passed[slot] = 1;
@@ -109,9 +100,7 @@ static verif_agent verif_agents[VERIF_MAX_SLOTS];
 namespace pika::execution::this_thread::detail {
     pika::execution::detail::agent_ref agent()
     {
-        int t = verif_tid();
-        verif_agents[t].slot = t;
-        return pika::execution::detail::agent_ref(&verif_agents[t]);
+        return pika::execution::detail::agent_ref(&verif_agents[verif_tid()]);
     }
     void yield(char const* desc) { agent().yield(desc); }
     void yield_k(std::size_t k, char const* desc) { agent().yield_k(k, desc); }
